@@ -48,21 +48,32 @@ INFO = {
  "C16-3": ("C16", "KemAc::encaps runs on a clone of the shared RNG and writes the advanced state back (non-atomic read-modify-write)", "concurrent encapsulations on one shared instance"),
  "C17-3": ("C17", "generate_user_id pairs the random markers with the tracers in reversed order (rev().skip(1))", "a master key with tracing level >= 2 (3 or more tracers)"),
  "C18-3": ("C18", "recaps fails unless every target of the original was re-opened", "a multi-target original one of whose targets became unrecoverable (rekey + prune, deletion)"),
+ "C02-5": ("C02", "Dimension::write serializes the attributes sorted by id ('deterministic output')", "a hierarchy whose rank order differs from creation order, a master-key serialization round-trip, then a key issued for a formerly lower attribute"),
+ "C08-5": ("C08", "verify compares the signatures with a 'constant-time' zip over two Options (empty when the key carries none)", "a user key whose trailing signature bytes were removed, with any other tampering"),
+ "C09-5": ("C09", "MasterSecretKey::mpk publishes the first activated secret anywhere in the chain", "rekey, then disable + update_msk: encapsulating for the disabled right succeeds under the older secret"),
+ "C12-5": ("C12", "EncryptedHeader::read treats encrypted metadata shorter than a nonce as absent", "a header whose metadata was cut to 1..11 bytes, travelling in serialized form: it opens with metadata None instead of an error"),
+ "C15-5": ("C15", "QualifiedAttribute::try_from trims the whole token once instead of both names", "a space next to the '::' separator"),
+ "C16-5": ("C16", "the metadata key is derived with the authentication data as KDF label (0x00 only when absent)", "authentication data equal to the single byte 0x01: metadata key = caller's secret"),
+ "C17-5": ("C17", "sign no longer covers the identifier ('already authenticated by the registry lookup')", "the identifier of one issued key spliced onto the body and signature of another, then refreshed"),
+ "C18-5": ("C18", "select_subkeys: hybridization flag is last-one-wins instead of sticky false", "a re-encapsulation whose recovered rights mix classic and hybridized keys (depends on set order)"),
  "C07-2": ("C07", "Encapsulations::read accepts any flag value other than 1 as 'classic' (flag turned into a bool, error branch removed)", "a classic encapsulation whose flag byte is changed in bits 1..6: it deserializes to the same object and still decapsulates"),
 }
 logs = ""
-for f in ("/var/tmp/seedeval.txt", "/var/tmp/seedeval2.txt", "/var/tmp/seedeval3.txt", "/var/tmp/seedeval4.txt", "/var/tmp/seedeval5.txt"):
+for f in ("/var/tmp/seedeval.txt", "/var/tmp/seedeval2.txt", "/var/tmp/seedeval3.txt", "/var/tmp/seedeval4.txt", "/var/tmp/seedeval5.txt", "/var/tmp/seedeval5_c03.txt", "/var/tmp/seedeval6.txt", "/var/tmp/seedeval6b.txt"):
     if os.path.exists(f):
         logs += open(f).read()
 # split per section
 sections = {}
+runs = {}
 cur = None
 order1 = iter([])
 for ln in logs.split("\n"):
     m = re.match(r"=== (\S+)", ln)
     if m:
         key = m.group(1)
-        if key.startswith("/tmp/mut4/"):
+        if key.startswith("/tmp/mut5/"):
+            cur = key.split("/")[-1] + "-5"
+        elif key.startswith("/tmp/mut4/"):
             cur = key.split("/")[-1] + "-4"
         elif key.startswith("/tmp/mut3/"):
             cur = key.split("/")[-1] + "-3"
@@ -72,11 +83,12 @@ for ln in logs.split("\n"):
             cur = key.split("/")[-1] + "-1"
         else:
             cur = key + "-1"
-        sections[cur] = []
+        runs.setdefault(cur, []).append([])
+        sections[cur] = runs[cur][-1]
     elif cur:
         sections[cur].append(ln)
 confirm = {}
-for f in ("/var/tmp/confirm.txt", "/var/tmp/confirm2.txt", "/var/tmp/confirm3.txt"):
+for f in ("/var/tmp/confirm.txt", "/var/tmp/confirm2.txt", "/var/tmp/confirm3.txt", "/var/tmp/confirm4.txt"):
     if os.path.exists(f):
         for ln in open(f):
             m = re.match(r"(C\d+(?:-\d)?) \| (.*)", ln)
@@ -99,7 +111,10 @@ for sid, (prop, what, needs) in sorted(INFO.items()):
         "caught_by": sorted(set(caught)),
         "check_summary": summary,
         "detected": bool(caught),
+        "evaluations": [{"caught_by": sorted(set(re.sub(r"^  obligation (\S+) failed:.*", r"\1", l) for l in r if l.startswith("  obligation"))),
+                         "summary": next((l for l in r if "tier=quick" in l), "")} for r in runs.get(sid, [])],
     }
+    meta["missed_before_strengthening"] = any(not e["caught_by"] for e in meta["evaluations"][:-1]) if len(meta["evaluations"]) > 1 else False
     json.dump(meta, open(os.path.join(d, "meta.json"), "w"), indent=1)
     rows.append(meta)
 with open(os.path.join(V, "seeded", "README.md"), "w") as fh:
